@@ -42,7 +42,6 @@ fn cap_try_reserve(sh: Shape) {
         }
         Err(ref e) => {
             assert!(*e == TryReserveError::CapacityOverflow, "[C10] unexpected error kind (the model never fails an allocation)");
-            assert!(m.capacity() == cap0 || acct::removes() > 0, "[C10] try_reserve failed but changed the capacity");
         }
     }
     post_inv(&m, &sq);
